@@ -1,5 +1,8 @@
 import Ezc3dVerif.Proofs.LoadWrite
 import Ezc3dVerif.Proofs.SpecRecords
+import Ezc3dVerif.Proofs.SpecHeader
+import Ezc3dVerif.Proofs.SpecFrames
+import Ezc3dVerif.Properties.C01
 /-
   C03 (continued) — the written file, byte for byte, and what a reader that follows its pointers finds.
 
@@ -95,5 +98,130 @@ theorem spec_records (ph : PHeader) (gs : List Group) (ps pre post : Bytes)
     simp only [List.length_append, List.length_cons, List.length_nil, List.nil_append]
     congr 2
     omega
+
+theorem listAt4 (H : Bytes) (a b c d : UInt8) (rest : Bytes) :
+    Spec.listAt Spec.byteAt (H ++ (a :: b :: c :: d :: rest)) H.length 1 4 = some [a.toNat, b.toNat, c.toNat, d.toNat] := by
+  simp only [Spec.listAt]
+  have a0 := byteAt_shift H (a :: b :: c :: d :: rest)
+  have h0 := a0 0
+  have h1 := a0 1
+  have h2 := a0 2
+  have h3 := a0 3
+  rw [Nat.add_zero] at h0
+  rw [h0, h1, show H.length + 1 + 1 = H.length + 2 by omega, h2, show H.length + 2 + 1 = H.length + 3 by omega, h3]
+  rfl
+
+/-- what an independent reader of the format must find in the file `write` produced -/
+def specContent (s : C3D) (psLen k : Nat) : Spec.Content :=
+  let v : Int := ((psLen / 512 + 2 : Nat) : Int) % 256
+  { leadingZeros := 0, header := specHeader s.hdr (psLen / 512 + 2),
+    prologue := [(low8N s.ph.start).toNat, 0x50, (low8 ((psLen / 512 : Nat) : Int)).toNat, 84],
+    groups := specGroupsOf (s.groups.map (setDSg v)) 0, params := specParamsOf (s.groups.map (setDSg v)) 0,
+    terminated := true, paramEnd := 512 + k, frames := s.frames.map specFrame, dataBytesLeft := 0 }
+
+/-- SAVED FILES DECODE, WITH AN INDEPENDENT READER THAT FOLLOWS ONLY THE FILE'S OWN POINTERS, TO THE CONTENT HELD IN MEMORY.
+    `Spec.decode` (Spec/Format.lean) finds the header at byte 0, goes to the block the header's first byte names, walks the
+    record chain by the records' own offsets (each checked against where the record really ends) down to the terminator,
+    goes to the block the header's data-start word names and takes `last − first + 1` frames of
+    `4 × points + channels × sub-frames` words. On the bytes `write` produced it returns: the header counts of memory
+    (first/last frame 1-based), the groups and parameters of memory in order (names upper-case, lock, type, dimensions, values,
+    description; POINT:DATA_START = the block after the section), every frame bit for bit, and NOTHING is left after the
+    last frame. Domain: content within the format's capacity (`HdrOK`, `GroupRecsOK`), distinct group names, the header
+    counting the stored frames, frames of the announced shape, at least one point or channel (without any, the header's
+    frame range is the recorded finding). The float-format marker is not consulted (`assumeFloat`): see `float_marker_finding`. -/
+theorem spec_decode_write (s : C3D) (b ps : Bytes)
+    (hps : writeParamSection s.ph s.groups 512 = .ok ps) (hb : s.write = .ok b)
+    (hhdr : HdrOK s.hdr)
+    (hgok : ∀ g ∈ s.groups, g.name ≠ [] → GroupRecsOK g)
+    (hgd : (s.groups.map fun g => g.name).Pairwise (· ≠ ·)) (hglen : s.groups.length ≤ 127)
+    (hblocks : ps.length / 512 + 2 < 65536)
+    (hne : ¬ (s.hdr.nbPoints = 0 ∧ s.hdr.nbAnalogs = 0))
+    (hnf : s.hdr.nbFrames = s.frames.length) (hnfs : s.frames.length ≤ 65536)
+    (hshape : ∀ f ∈ s.frames, f.hasShape s.hdr.nbPoints s.hdr.nbAnalogByFrame s.hdr.nbAnalogs) :
+    ∃ k, k ≤ ps.length ∧ Spec.decode b true = some (specContent s ps.length k) := by
+  obtain ⟨v, npad, hv1, hv2, hnp, hpsb, hmod, hpos, hveq⟩ := writeParamSection_bytes s.ph s.groups ps hgok hgd hps
+  have hbe := header_data_start s b ps hps hb hmod
+  generalize hH : s.hdr.write ((ps.length / 512 + 2 : Nat) : Int) = H at hbe
+  have hHlen : H.length = 512 := by rw [← hH]; exact header_length s.hdr _ ⟨hhdr.times, hhdr.displen, hhdr.lablen⟩
+  obtain ⟨v', k, _, _, hv'eq, hk, hrec⟩ := spec_records s.ph s.groups ps H (writeData s.frames) hgok hgd hglen hps
+  have hvv : v' = ((ps.length / 512 + 2 : Nat) : Int) % 256 := hv'eq
+  subst hvv
+  refine ⟨k, hk, ?_⟩
+  have hb2 : b = H ++ (ps ++ writeData s.frames) := by rw [hbe]; simp
+  rw [← hb2, hHlen] at hrec
+  -- header
+  have hbR : b = s.hdr.bytesR (ps.length / 512 + 2) (ps ++ writeData s.frames) := by
+    rw [← Header.write_bytesR s.hdr _ _ hhdr, hH, hb2]
+  have hdh := decodeHeader_written s.hdr (ps.length / 512 + 2) (ps ++ writeData s.frames) hhdr hblocks
+  rw [← hbR] at hdh
+  have hz : Spec.countZeros b = 0 := by
+    rw [hbR]; unfold Header.bytesR
+    exact countZeros_cons_ne _ _ (by decide)
+  -- prologue
+  have hpro : Spec.listAt Spec.byteAt b 512 1 4 = some [(low8N s.ph.start).toNat, 0x50, (low8 ((ps.length / 512 : Nat) : Int)).toNat, 84] := by
+    have e : b = H ++ (low8N s.ph.start :: 0x50 :: low8 ((ps.length / 512 : Nat) : Int) :: 84 ::
+        (groupsBytes (s.groups.map (setDSg v)) 0 ++ List.replicate npad 0 ++ writeData s.frames)) := by
+      rw [hb2]; conv => lhs; rw [hpsb]
+      simp
+    rw [e]
+    have := listAt4 H (low8N s.ph.start) 0x50 (low8 ((ps.length / 512 : Nat) : Int)) 84
+      (groupsBytes (s.groups.map (setDSg v)) 0 ++ List.replicate npad 0 ++ writeData s.frames)
+    rw [hHlen] at this
+    exact this
+  -- data
+  have hdrop : b.drop (512 + ps.length) = writeData s.frames := by
+    have : 512 + ps.length = (H ++ ps).length := by simp [hHlen]
+    rw [this, hbe, List.drop_left]
+  have hfr := decodeFrames_written s.hdr.nbPoints s.hdr.nbAnalogByFrame s.hdr.nbAnalogs s.frames [] hshape
+  rw [List.append_nil] at hfr
+  have hN := spec_nframes s.hdr s.frames.length hhdr hne hnf hnfs
+  unfold Spec.decode
+  simp only [hz, hdh]
+  have e2 : (specHeader s.hdr (ps.length / 512 + 2)).paramBlock = 2 := rfl
+  have e3 : (specHeader s.hdr (ps.length / 512 + 2)).dataStart = ps.length / 512 + 2 := rfl
+  have e4 : (specHeader s.hdr (ps.length / 512 + 2)).firstFrame = u64 (s.hdr.firstFrame + 1) := rfl
+  have e5 : (specHeader s.hdr (ps.length / 512 + 2)).lastFrame = u64 (s.hdr.lastFrame + 1) := rfl
+  have e6 : (specHeader s.hdr (ps.length / 512 + 2)).subframes = s.hdr.nbAnalogByFrame := rfl
+  have e7 : (specHeader s.hdr (ps.length / 512 + 2)).analogPerFrame = s.hdr.nbAnalogsMeas := rfl
+  have e8 : (specHeader s.hdr (ps.length / 512 + 2)).nPoints = s.hdr.nbPoints := rfl
+  rw [e2, e3, e4, e5, e6, e7, e8]
+  have hp512 : 0 + 512 * (2 - 1) = 512 := by omega
+  have hd512 : 0 + 512 * (ps.length / 512 + 2 - 1) = 512 + ps.length := by omega
+  rw [hp512, hd512, hpro]
+  simp only [if_neg (show ¬ (2 = 0) by omega)]
+  rw [hrec]
+  simp only [Bool.or_true, not_true_eq_false, if_false, if_neg (show ¬ (ps.length / 512 + 2 = 0) by omega)]
+  rw [hN, hdrop]
+  have hnch : (if s.hdr.nbAnalogByFrame = 0 then 0 else s.hdr.nbAnalogsMeas / s.hdr.nbAnalogByFrame) = s.hdr.nbAnalogs := rfl
+  rw [hnch, hfr]
+  rfl
+
+/-- the hypotheses of `spec_decode_write` as one decidable proposition: the driver evaluates it on every saving state of
+    the C03 lanes (op `sdcheck`), `decide` exhibits a state inside it -/
+def SpecDecodeHyps (s : C3D) (b ps : Bytes) : Prop :=
+  writeParamSection s.ph s.groups 512 = .ok ps ∧ s.write = .ok b ∧ HdrOK s.hdr ∧
+  (∀ g ∈ s.groups, g.name ≠ [] → GroupRecsOK g) ∧ (s.groups.map fun g => g.name).Pairwise (· ≠ ·) ∧ s.groups.length ≤ 127 ∧
+  ps.length / 512 + 2 < 65536 ∧ ¬ (s.hdr.nbPoints = 0 ∧ s.hdr.nbAnalogs = 0) ∧
+  s.hdr.nbFrames = s.frames.length ∧ s.frames.length ≤ 65536 ∧
+  (∀ f ∈ s.frames, f.hasShape s.hdr.nbPoints s.hdr.nbAnalogByFrame s.hdr.nbAnalogs)
+
+instance (s : C3D) (b ps : Bytes) : Decidable (SpecDecodeHyps s b ps) := by unfold SpecDecodeHyps; infer_instance
+
+theorem spec_decode_of_hyps (s : C3D) (b ps : Bytes) (h : SpecDecodeHyps s b ps) :
+    ∃ k, k ≤ ps.length ∧ Spec.decode b true = some (specContent s ps.length k) := by
+  obtain ⟨h1, h2, h3, h4, h5, h6, h7, h8, h9, h10, h11⟩ := h
+  exact spec_decode_write s b ps h1 h2 h3 h4 h5 h6 h7 h8 h9 h10 h11
+
+set_option maxRecDepth 100000 in
+/-- non-vacuity: the state of `C01.s0` (three groups, every parameter type, two frames) is inside the domain -/
+theorem s0_in_spec_domain : SpecDecodeHyps C01.s0 C01.s0b C01.s0ps := by decide +kernel
+
+example : ∃ k, k ≤ C01.s0ps.length ∧ Spec.decode C01.s0b true = some (specContent C01.s0 C01.s0ps.length k) :=
+  spec_decode_of_hyps _ _ _ s0_in_spec_domain
+
+/-- the recorded finding C03 `float_marker`, as a theorem about the writer: an object built through the API keeps
+    scale = −1 as an INTEGER, so words 7–8 are FF FF FF FF, which read as the float the format prescribes is a NaN, not
+    a negative number: a reader that tests the marker does not take the data for floating point -/
+theorem float_marker_finding : Spec.isNegF (scaleBits C3D.init.hdr.scale) = false := by decide
 
 end Ezc3d.C03
